@@ -3,10 +3,12 @@
 package handshake
 
 import (
+	"crypto"
 	"errors"
 	"time"
 
 	tls "github.com/refraction-networking/utls"
+	"golang.org/x/crypto/hkdf"
 
 	"github.com/refraction-networking/uquic/internal/monotime"
 	"github.com/refraction-networking/uquic/internal/protocol"
@@ -235,5 +237,60 @@ func VerifLabelConsts() [][2]any {
 		{"PP_hkdfLabelHPV2", verifCoqString(hkdfHeaderProtectionLabel(protocol.Version2))},
 		{"PP_hkdfLabelKUV1", verifCoqString(verifKULabel(protocol.Version1))},
 		{"PP_hkdfLabelKUV2", verifCoqString(verifKULabel(protocol.Version2))},
+	}
+}
+
+// ---- C05 `initialkeys` unit ----
+
+// verifInitialLabel finds by behaviour which HKDF label computeSecrets uses for a side.
+func verifInitialLabel(client bool) string {
+	connID := protocol.ParseConnectionID([]byte{1, 2, 3, 4, 5, 6, 7, 8})
+	for _, v := range []protocol.Version{protocol.Version1} {
+		cs, ss := computeSecrets(connID, v)
+		got := ss
+		if client {
+			got = cs
+		}
+		initialSecret := hkdf.Extract(crypto.SHA256.New, connID.Bytes(), getSalt(v))
+		for _, l := range []string{"client in", "server in"} {
+			if string(hkdfExpandLabel(initialSuite.Hash, initialSecret, []byte{}, l, 32)) == string(got) {
+				return l
+			}
+		}
+	}
+	return "?"
+}
+
+// VerifInitialConsts: salts (hex) and the "client in"/"server in" labels for the constants translator.
+func VerifInitialConsts() [][2]any {
+	hexs := func(b []byte) string {
+		const d = "0123456789abcdef"
+		out := make([]byte, 0, 2*len(b))
+		for _, x := range b {
+			out = append(out, d[x>>4], d[x&15])
+		}
+		return string(out)
+	}
+	return [][2]any{
+		{"PP_quicSaltV1", verifCoqString(hexs(quicSaltV1))},
+		{"PP_quicSaltV2", verifCoqString(hexs(quicSaltV2))},
+		{"PP_initialLabelClient", verifCoqString(verifInitialLabel(true))},
+		{"PP_initialLabelServer", verifCoqString(verifInitialLabel(false))},
+	}
+}
+
+// VerifRetryConsts: the Retry integrity nonces (package variables) for the constants translator.
+func VerifRetryConsts() [][2]any {
+	hexs := func(b []byte) string {
+		const d = "0123456789abcdef"
+		out := make([]byte, 0, 2*len(b))
+		for _, x := range b {
+			out = append(out, d[x>>4], d[x&15])
+		}
+		return string(out)
+	}
+	return [][2]any{
+		{"PP_retryNonceV1", verifCoqString(hexs(retryNonceV1[:]))},
+		{"PP_retryNonceV2", verifCoqString(hexs(retryNonceV2[:]))},
 	}
 }
